@@ -153,7 +153,9 @@ def vol_accounting(F, S):
     # block step: next = (prev.offset + prev.size + 8 + 3) & ~3 ; emitted per block: 8 + size + ((-size) & 3)
     step = None
     for nd in ph.nodes:
-        if is_store(nd) and nd.get("op") == "=" and ph.term(ph.kids(nd["id"])[0]) == ("var", "dataBlockOffset", ph.term(ph.kids(nd["id"])[0])[2] if ph.term(ph.kids(nd["id"])[0])[0] == "var" else None):
+        # the running offset local is whichever local the dataBlockOffset stores take their value from
+        running = {t for (_n, t) in offs if t[0] == "var"}
+        if is_store(nd) and nd.get("op") == "=" and ph.term(ph.kids(nd["id"])[0]) in running:
             step = ph.term(ph.kids(nd["id"])[1])
     if step is None:
         later = [t for (nd, t) in offs if "('const', 0)" not in repr(ph.term(ph.kids(nd["id"])[0]))]
@@ -185,10 +187,18 @@ def clm_accounting(F, S):
     wa = F.fn(CLM + "::WriteArchive", nparams=5)
     # offset0 = headerSize + names.size() * sizeof(IndexEntry); headerSize argument is sizeof(header)
     off0 = None
+    # the running offset is the local stored (through the checked cast) into an entry's dataOffset
+    roles = set()
+    for nd in pi.nodes:
+        if is_store(nd):
+            ks = pi.kids(nd["id"])
+            l = pi.term(ks[0])
+            if l[0] == "mem" and l[2] == "dataOffset" and pi.term(ks[1])[0] == "var":
+                roles.add(pi.term(ks[1]))
     for nd in pi.nodes:
         if nd["k"] == "DeclStmt":
             for d in nd.get("decls", []):
-                if d.get("n") == "offset" and "init" in d:
+                if ("var", d.get("n"), d.get("d")) in roles and "init" in d:
                     off0 = pi.term(d["init"])
     hs = ("var", pi.params[0]["n"], pi.params[0]["d"])
     nm = ("var", pi.params[1]["n"], pi.params[1]["d"])
@@ -202,7 +212,7 @@ def clm_accounting(F, S):
         out.append(ok("R-ACCT", inst, pi.loc(pi.body), pi.qn, req, "%s with headerSize = %d" % (fmt_term(off0), rec["size_bits"] // 8)))
     else:
         out.append(bad("R-ACCT", inst, pi.loc(pi.body), pi.qn, req, "offset starts at %s; headerSize argument %s" % (fmt_term(off0) if off0 else "?", fmt_term(wa.term(call[0]["args"][0])) if call else "?")))
-    steps = [nd for nd in pi.nodes if nd["k"] == "CompoundAssignOperator" and nd.get("op") == "+=" and pi.term(pi.kids(nd["id"])[0])[0] == "var" and pi.term(pi.kids(nd["id"])[0])[1] == "offset"]
+    steps = [nd for nd in pi.nodes if nd["k"] == "CompoundAssignOperator" and nd.get("op") == "+=" and pi.term(pi.kids(nd["id"])[0]) in roles]
     inst = CLM + "::PrepareIndex#step"
     good = len(steps) == 1 and pi.term(pi.kids(steps[0]["id"])[1])[0] == "mem" and pi.term(pi.kids(steps[0]["id"])[1])[2] == "dataLength"
     if good:
